@@ -31,6 +31,14 @@ func getBounds() bounds {
 
 func scopeStr(name string, b bounds) string { return zz.StringEx(name, b.L, b.exclude) }
 
+// flag returns a concrete bool (the path forks here, later uses cost no solver queries).
+func flag(name string) bool {
+	if zz.Bool(name) {
+		return true
+	}
+	return false
+}
+
 var strategies = []fosite.ScopeStrategy{fosite.ExactScopeStrategy, fosite.HierarchicScopeStrategy, fosite.WildcardScopeStrategy}
 
 func intersects(a, b []string) bool {
@@ -70,12 +78,44 @@ func refreshScopes(b bounds) (cfg []string, effective []string) {
 	return []string{k}, []string{k}
 }
 
+func grantedScopes(b bounds) []string {
+	granted := []string{scopeStr("granted", b)}
+	zz.Assume(granted[0] != "")
+	if b.two {
+		g2 := scopeStr("granted", b)
+		zz.Assume(g2 != "" && g2 != granted[0])
+		granted = append(granted, g2)
+	}
+	return granted
+}
+
+// The dimensions of the refresh step. In the quick tier one dimension at a time is free and the others
+// keep their permissive value (sum of the dimensions); the thorough tier frees all of them at once (product).
+const (
+	dimPresenter = iota
+	dimGrantType
+	dimRefreshScopes
+	dimClientScopes
+	dimClientAudience
+	dimRequestParams
+	nDims
+)
+
 // ZZ_C05_refresh_step: one refresh against a registration that changed since issuance.
 func ZZ_C05_refresh_step() {
+	zz.SetOption("clock.fixed", 1) // C05 does not quantify over time
 	b := getBounds()
+	free := func(dim int) bool { return true }
+	if !zz.Thorough() {
+		focus := zz.Choice("focus", nDims)
+		free = func(dim int) bool { return dim == focus }
+	}
 	si := zz.Choice("strategy", 3)
 	strat := strategies[si]
-	audMode := zz.Choice("audience-strategy", 2) // 0 default (URL prefix), 1 exact strings
+	audMode := 0 // 0 default (URL prefix), 1 exact strings
+	if free(dimClientAudience) {
+		audMode = zz.Choice("audience-strategy", 2)
+	}
 	wd := world.New(world.Options{Tweak: func(cfg *fosite.Config) {
 		cfg.ScopeStrategy = strat
 		cfg.RefreshTokenScopes = []string{} // issuance: no scope required
@@ -86,13 +126,7 @@ func ZZ_C05_refresh_step() {
 	c1 := wd.Store.Clients["c1"].(*fosite.DefaultClient)
 
 	// ---- the original grant
-	granted := []string{scopeStr("granted", b)}
-	zz.Assume(granted[0] != "")
-	if b.two {
-		g2 := scopeStr("granted", b)
-		zz.Assume(g2 != "" && g2 != granted[0])
-		granted = append(granted, g2)
-	}
+	granted := grantedScopes(b)
 	aud0 := apiAud
 	if audMode == 1 {
 		aud0 = zz.StringEx("granted.audience", b.L, " ")
@@ -103,7 +137,7 @@ func ZZ_C05_refresh_step() {
 	c1.Scopes = append([]string{}, granted...)
 	c1.Audience = []string{aud0}
 	var rt0 string
-	if zz.Thorough() && zz.Bool("origin.password") {
+	if zz.Thorough() && flag("origin.password") {
 		wd.Store.Users[subject] = wd.Store.Users["peter"]
 		resp, err := wd.TokenAs("c1", world.Secret1, url.Values{"grant_type": {"password"}, "username": {subject}, "password": {"pw-peter"},
 			"scope": {strings.Join(granted, " ")}, "audience": {aud0}})
@@ -120,28 +154,44 @@ func ZZ_C05_refresh_step() {
 	zz.Assume(rt0 != "")
 
 	// ---- the registration and the configuration change
-	cur := []string{scopeStr("client.scope", b)}
-	if b.two {
-		cur = append(cur, scopeStr("client.scope", b))
+	cur := append([]string{}, granted...)
+	if free(dimClientScopes) {
+		cur = []string{scopeStr("client.scope", b)}
+		if b.two {
+			cur = append(cur, scopeStr("client.scope", b))
+		}
 	}
 	c1.Scopes = cur
-	switch {
-	case audMode == 1:
-		c1.Audience = []string{zz.StringEx("client.audience", b.L, " ")}
-	default:
-		c1.Audience = [][]string{{apiAud}, {"https://api.example/"}, {"https://other.example/v1"}, {}}[zz.Choice("client.audience", 4)]
+	if free(dimClientAudience) {
+		if audMode == 1 {
+			c1.Audience = []string{zz.StringEx("client.audience", b.L, " ")}
+		} else {
+			c1.Audience = [][]string{{apiAud}, {"https://api.example/"}, {"https://other.example/v1"}, {}}[zz.Choice("client.audience", 4)]
+		}
 	}
-	hasGrant := zz.Bool("client.has-refresh-grant")
+	hasGrant := true
+	if free(dimGrantType) {
+		hasGrant = flag("client.has-refresh-grant")
+	}
 	if !hasGrant {
 		c1.GrantTypes = without(c1.GrantTypes, "refresh_token")
 	}
-	cfgScopes, effScopes := refreshScopes(b)
+	var cfgScopes, effScopes []string = []string{}, nil
+	if free(dimRefreshScopes) {
+		cfgScopes, effScopes = refreshScopes(b)
+	}
 	wd.Cfg.RefreshTokenScopes = cfgScopes
 
 	// ---- the refresh request
-	presenter := []string{"c1", "c2"}[zz.Choice("presenter", 2)]
-	form := url.Values{"grant_type": {"refresh_token"}, "refresh_token": {rt0},
-		"scope": {zz.StringEx("request.scope", b.L, " ")}, "audience": {zz.StringEx("request.audience", b.L, " ")}}
+	presenter := "c1"
+	if free(dimPresenter) {
+		presenter = []string{"c1", "c2"}[zz.Choice("presenter", 2)]
+	}
+	form := url.Values{"grant_type": {"refresh_token"}, "refresh_token": {rt0}}
+	if free(dimRequestParams) {
+		form.Set("scope", zz.StringEx("request.scope", b.L, " "))
+		form.Set("audience", zz.StringEx("request.audience", b.L, " "))
+	}
 	resp, err := wd.Token(presenter, "", form)
 	name := world.ErrName(err)
 	zz.Observe("refresh.err", name)
@@ -159,6 +209,7 @@ func ZZ_C05_refresh_step() {
 
 	if err == nil {
 		zz.Cover("refresh:success", true)
+		zz.Cover("refresh:success-with-request-parameters", free(dimRequestParams))
 		zz.Assert(presenter == "c1", "refresh token honoured only for the client it was issued to")
 		zz.Assert(hasGrant, "refresh token never honoured for a client lacking the refresh_token grant")
 		zz.Assert(scopesOK, "refresh honoured only while the client is allowed every granted scope")
@@ -195,19 +246,14 @@ func ZZ_C05_refresh_step() {
 // ZZ_C05_issuance: a refresh token is in the response iff the grant contains a configured refresh
 // scope (or none is configured) and, in the code flow, the client is registered for refresh_token.
 func ZZ_C05_issuance() {
+	zz.SetOption("clock.fixed", 1)
 	b := getBounds()
 	cfgScopes, effScopes := refreshScopes(b)
 	wd := world.New(world.Options{Tweak: func(cfg *fosite.Config) { cfg.RefreshTokenScopes = cfgScopes }})
 	c1 := wd.Store.Clients["c1"].(*fosite.DefaultClient)
-	granted := []string{scopeStr("granted", b)}
-	zz.Assume(granted[0] != "")
-	if b.two {
-		g2 := scopeStr("granted", b)
-		zz.Assume(g2 != "" && g2 != granted[0])
-		granted = append(granted, g2)
-	}
+	granted := grantedScopes(b)
 	c1.Scopes = append([]string{}, granted...)
-	hasGrant := zz.Bool("client.has-refresh-grant")
+	hasGrant := flag("client.has-refresh-grant")
 	if !hasGrant {
 		c1.GrantTypes = without(c1.GrantTypes, "refresh_token")
 	}
@@ -227,11 +273,12 @@ func ZZ_C05_issuance() {
 	}
 	zz.Assume(err == nil)
 	rt := world.RefreshTokenOf(resp)
-	want := (len(effScopes) == 0 || intersects(granted, effScopes)) && (flow != 0 || hasGrant)
+	scopeRule := len(effScopes) == 0 || intersects(granted, effScopes)
+	want := scopeRule && (flow != 0 || hasGrant)
 	zz.Observe("issued", rt != "")
 	if rt != "" {
 		zz.Cover("issued", true)
-		zz.Assert(len(effScopes) == 0 || intersects(granted, effScopes), "refresh token only issued when the grant contains a configured refresh scope")
+		zz.Assert(scopeRule, "refresh token only issued when the grant contains a configured refresh scope")
 		zz.Assert(flow != 0 || hasGrant, "code flow issues a refresh token only to clients registered for refresh_token")
 		active, ar := wd.Introspect(rt, fosite.RefreshToken)
 		zz.Assert(active, "issued refresh token is active")
@@ -240,7 +287,7 @@ func ZZ_C05_issuance() {
 		}
 	} else {
 		zz.Cover("not-issued", true)
-		zz.Cover("not-issued:no-refresh-scope", !(len(effScopes) == 0 || intersects(granted, effScopes)))
+		zz.Cover("not-issued:no-refresh-scope", !scopeRule)
 		zz.Cover("not-issued:client-lacks-grant", flow == 0 && !hasGrant)
 		zz.Assert(!want, "refresh token is issued when the rule allows it")
 	}
